@@ -269,6 +269,9 @@ def make_linprog(real_linprog, validate=False):
                     alts.append(z3.And(*[slack[i].z == 0 for i in S]))
             if alts:
                 eng.lp_basic_facts.append(z3.Or(*alts))
+                # harnesses may adopt the fact as part of the LP contract for LPs of the given widths (C18's fallback)
+                if m in eng.path_state.get("lp_assume_basic_m", ()):
+                    eng.assume(z3.Or(*alts))
         res.update(status=0, fun=f, success=True, message="optimal (stub)")
         res["x"] = np.array(xs, dtype=object)
         res["slack"] = np.array(slack, dtype=object)
